@@ -239,8 +239,13 @@ def gurobi_roundtrip(f, ctx):
     direct = rawsolve.gurobi(f)
     d = tempfile.mkdtemp(prefix='rsome-lp-', dir='/dev/shm' if os.path.isdir('/dev/shm') else None)
     try:
-        name = os.path.join(d, 'prog')
+        # file names as users write them in parameter sweeps: to_lp(name) writes name + '.lp'
+        stem = ['prog', 'budget_1.25', 'model.v2', 'run_0.5', 'a.b.c'][int(f.linear.shape[1] + f.linear.shape[0]) % 5]
+        name = os.path.join(d, stem)
         f.to_lp(name)
+        if not os.path.exists(name + '.lp'):
+            return {'what': 'to_lp(name) did not write name.lp', 'name': stem,
+                    'written': sorted(os.listdir(d))}
         env = gp.Env(params={'OutputFlag': 0})
         try:
             m = gp.read(name + '.lp', env=env)
